@@ -8,9 +8,9 @@ git checkout -q -- . ; git clean -fdxq 2>/dev/null
 git apply "$C/patch.diff" || { echo "VERDICT $C: patch does not apply"; exit 1; }
 make -f Makefile.unx -j8 check > "$C/verify_check_with.log" 2>&1; rc_check=$?
 grep -qi "fail" "$C/verify_check_with.log" && fails=$(grep -ci "fail" "$C/verify_check_with.log") || fails=0
-sh "$C/demo.sh" "$W" > "$C/verify_demo_with.log" 2>&1; rc_with=$?
+bash "$C/demo.sh" "$W" > "$C/verify_demo_with.log" 2>&1; rc_with=$?
 git checkout -q -- . ; git clean -fdxq 2>/dev/null
 make -f Makefile.unx -j8 lib > /dev/null 2>&1
-sh "$C/demo.sh" "$W" > "$C/verify_demo_without.log" 2>&1; rc_without=$?
+bash "$C/demo.sh" "$W" > "$C/verify_demo_without.log" 2>&1; rc_without=$?
 git checkout -q -- . ; git clean -fdxq 2>/dev/null
 echo "VERDICT $C: tests_exit=$rc_check fail_lines=$fails demo_with=$rc_with demo_without=$rc_without"
